@@ -133,3 +133,39 @@ def judge_fault(T, spec):
         if (cl, txt) not in p0:
             V.append(_viol("C17", "wellformed", T, "c13:" + cl, txt))
     return V
+
+
+def continuation_c17(T, w0, w1, m0):
+    """`continue` clause: after a rejected request the program continues as if the call had not been made.
+    The same valid continuation is executed on the post-fault world and on a fault-free twin (a clone of the
+    pre-state); symptom, reported outcome and joint state must agree."""
+    from .observe import Obs
+    V = []
+    a = T.a
+    names = list(m0.ref.names)
+    targets = [t for t in (a[2] if a[0] in ("op", "kraus", "povm", "measure") else [a[2]] if a[0] == "resize" else []) if t in names]
+    menu = []
+    for t in targets[:1]:
+        k = m0.ref.kinds[t]
+        menu.append(["op", "state", [t], {"P": "H", "F": "PhaseShift", "Q": "QExpr"}[k], {"phi": 0.7} if k == "F" else None])
+        menu.append(["measure", "state", [t], True, False])
+    if not menu and names:
+        t = names[0]
+        k = m0.ref.kinds[t]
+        menu.append(["op", "state", [t], {"P": "H", "F": "PhaseShift", "Q": "QExpr"}[k], {"phi": 0.7} if k == "F" else None])
+    for c in menu:
+        wa, wb = w1.clone(), w0.clone()
+        ra, rb = wa.apply(c, []), wb.apply(c, [])
+        if ra.symptom() != rb.symptom() or repr(ra.value) != repr(rb.value):
+            V.append(_viol("C17", "continue", T, "continuation-differs",
+                           f"{c[0]}:{c[3] if c[0] == 'op' else ''} on {c[2]} after the rejected call: {ra.symptom()} {ra.value!r} vs fault-free {rb.symptom()} {rb.value!r}"))
+            continue
+        if ra.ok:
+            oa, ob = Obs(wa), Obs(wb)
+            live = [s_ for s_ in names if not oa.sub[s_]["measured"]]
+            ja, _ = oa.joint(live, m0.ref.dims)
+            jb, _ = ob.joint(live, m0.ref.dims)
+            if ja is not None and jb is not None and _cmp(ja, jb) > 1e-9:
+                V.append(_viol("C17", "continue", T, "continuation-state-differs",
+                               f"{c[0]} on {c[2]} after the rejected call gives a different state (max diff {_cmp(ja, jb):.3e})"))
+    return V
